@@ -591,7 +591,10 @@ static void run_reuse(const std::string &name, const std::vector<PoolItem> &pool
 
 int main(int argc, char **argv)
 {
-    init(argc, argv, "C18");
+#ifndef C18_PID
+#define C18_PID "C18"
+#endif
+    init(argc, argv, C18_PID);
     bool thorough = opts().thorough();
     Run &R = run();
     R.level = "fault_enumeration";
